@@ -390,6 +390,13 @@ var (
 	famSIDNext int
 )
 
+// famLastSID is the id famNewSID handed out last.
+func famLastSID() string {
+	famCallMu.Lock()
+	defer famCallMu.Unlock()
+	return fmt.Sprintf("sid%09d", famSIDNext)
+}
+
 func famNewSID() string {
 	famCallMu.Lock()
 	defer famCallMu.Unlock()
@@ -471,6 +478,7 @@ func (c *FamCore) produce(out *vgirpc.OutputCollector) error {
 	k := c.Cursor
 	c.Cursor++
 	famRecord(c.SID, "P"+strconv.Itoa(k))
+	famMaybeAbortTurn(c.SID, k)
 	return c.runTurn(out, k, famTokI64(int64(k)))
 }
 
@@ -479,6 +487,7 @@ func (c *FamCore) exchange(in arrow.RecordBatch, out *vgirpc.OutputCollector) er
 	c.Cursor++
 	tok := famBatchToken(in)
 	famRecord(c.SID, "X"+strconv.Itoa(k)+"="+tok)
+	famMaybeAbortTurn(c.SID, k)
 	return c.runTurn(out, k, tok)
 }
 
